@@ -195,6 +195,15 @@ func openConn(kind string) (*cliConn, bool) {
 			ch.SendRequest("subsystem", true, gossh.Marshal(struct{ Name string }{"sftp"}))
 		}
 	}
+	if kind == "key_direct" {
+		// what ssh -L / -W send: a channel type the server does not serve; the connection stays up
+		cc.ssh.OpenChannel("direct-tcpip", gossh.Marshal(struct {
+			Host  string
+			Port  uint32
+			OHost string
+			OPort uint32
+		}{"127.0.0.1", 80, "127.0.0.1", 1234}))
+	}
 	return cc, true
 }
 
